@@ -96,6 +96,8 @@ impl Interfaces {
         msg_ty: &MsgType,
         contract: &Type,
     ) -> Vec<TokenStream> {
+        let sylvia = crate_module();
+
         self.interfaces
             .iter()
             .map(|interface| {
@@ -105,7 +107,7 @@ impl Interfaces {
 
                 let type_name = msg_ty.as_accessor_name();
                 quote! {
-                    <#contract as #module ::sv::InterfaceMessagesApi> :: #type_name :: response_schemas_impl()
+                    < <#contract as #module ::sv::InterfaceMessagesApi> :: #type_name as #sylvia ::cw_schema::QueryResponses> :: response_schemas_impl()
                 }
             })
             .collect()
